@@ -13,6 +13,45 @@ COMMON_NOTE = ("Trusted: Coq 8.16.1 kernel (full .vo build, vm_compute, no nativ
                "not verified directly. ")
 
 CLAIMED = {
+    "C01": {
+        "text": "Theorem C01_roundtrip_seq: for every history of write/finalize calls on well-formed shapes of any of the 13 types "
+                "(any number of shapes, parts, part lengths, any 64-bit float patterns) ending in drop or finalize+drop, reading the "
+                "produced .shp sequentially with the generic or the typed reader (any trailing bytes) returns the written header "
+                "and exactly one item per written shape, in order, equal to on_read of the written value, then ends. on_read is "
+                "characterised clause by clause (C01_same_type, C01_xyz_bit_identical, C01_measures + C01_measure_rule, "
+                "C01_kinds_and_box, C01_roles): same variant and part structure, X/Y/Z and box bit-identical, measures "
+                "bit-identical for points and normalised to NO_DATA exactly when NaN or <= NO_DATA for multi-vertex shapes, "
+                "patch kinds kept, ring roles = orientation of the stored vertex order. Proof: writer invariant (files = "
+                "final_shp), encoder = whitepaper layout (EncodeRef), layout conformant (LayoutConf), reader decodes conformant "
+                "files (C03), denotation of the stored record = on_read. The routes through the .shx (sequential with index, "
+                "random access in non-monotone order followed by iteration) and files on disk opened by path are covered by the "
+                "correspondence check and the direct round-trip oracle on the real code.",
+        "note": COMMON_NOTE + "Guards: FileFits (file length fits its i32 field) and RecordsFit (each record below 2 GiB: the "
+                "reader rejects larger ones). Role-kept-for-non-zero-exact-area is checked by the oracle with exact rational "
+                "arithmetic on the implementation's output (rings whose double evaluation is inexact are exempted, see DESIGN "
+                "F13). on_read mentions the orientation test (Flocq), hence the four classical-reals axioms of the standard "
+                "library. Files on disk go through BufWriter/BufReader/File: correspondence only.",
+        "technique": "Coq proof (composition of writer invariant, encoder-emits-spec, reader-decodes-spec) + differential "
+                     "correspondence on constructor/writer/reader pipelines + round-trip oracle",
+        "design_ref": "DESIGN.md section 7 (C01)",
+    },
+    "C02": {
+        "text": "Theorems: C02_record (for every shape value, type code + write_to output = whitepaper content of the record "
+                "the value must be stored as), C02_emits_spec (after any history of writes/finalizes of well-formed shapes, "
+                "n >= 0, both files are exactly ref_shp / ref_shx of the layout of the accepted shapes: 100-byte header, code "
+                "9994, zeroed words, length = real length/2, version 1000, the type, records 1..n without gaps or trailing "
+                "bytes, content length = real content length, M block always present, offsets = running sums), C02_conformant "
+                "(that file meets the whitepaper's side conditions) and C02_geometry_recovered (what the whitepaper says the "
+                "records encode is the geometry handed to the writer). Tie: real bytes = model bytes on generated histories; "
+                "oracle: an independent Python strict validator/decoder accepts the real bytes and recovers the geometry; "
+                "the Coq and the Python transcription of the whitepaper are compared byte for byte.",
+        "note": COMMON_NOTE + "Spec/Esri.v, Spec/Layout.v, Spec/Denote.v are the trusted transcription of the whitepaper, "
+                "cross-checked against gen/refesri.py on every run. Guard: FileFits. C02_geometry_recovered mentions the "
+                "orientation test (Flocq): four classical-reals stdlib axioms.",
+        "technique": "Coq proof (encoder emits the whitepaper layout, by induction over shapes and records; writer invariant) + "
+                     "differential correspondence + independent strict decoder as oracle",
+        "design_ref": "DESIGN.md section 7 (C02)",
+    },
     "C03": {
         "text": "Theorems over all conformant files of the whitepaper layout (Spec/Esri.v: any of the 14 types, any record count, "
                 "null records, per-record optional M, PointZ with/without M, any part structure, any stored boxes and record "
